@@ -77,6 +77,10 @@ func Gen(seed uint64, profile string) *Scenario {
 			sc.Post = append(sc.Post, "corrupt")
 		}
 		sc.PipeCap = simkit.Pick(r, []int{1, 64, 512, 4096, 65536})
+		if r.Chance(1, 5) {
+			// the connection carrying the archive breaks after this many bytes
+			sc.PipeBreak = simkit.Pick(r, []int{1, 20, 300, 1000, 3000, 6000, 12000})
+		}
 		tasks = r.Weighted([]int{3, 1}) + 1
 	case "errors":
 		k.errCases = true
@@ -205,6 +209,13 @@ func genWorld(r *simkit.RNG, sc *Scenario, k *gknobs) {
 		}
 		if k.links && r.Chance(1, 2) {
 			p.Files = append(p.Files, PFile{Path: "link-main", Kind: "link", Target: "main.tf"})
+			if r.Chance(1, 2) {
+				// targets that are not lexically clean
+				p.Files = append(p.Files, PFile{Path: "link-unclean", Kind: "link", Target: "./main.tf"})
+				if contains(locs, "m1") {
+					p.Files = append(p.Files, PFile{Path: "link-unclean2", Kind: "link", Target: "m1/../main.tf"})
+				}
+			}
 			if contains(locs, "m1") {
 				p.Files = append(p.Files, PFile{Path: "m1/up", Kind: "link", Target: "../main.tf"})
 				p.Files = append(p.Files, PFile{Path: "link-dir", Kind: "link", Target: "m1"})
